@@ -374,7 +374,7 @@ def readProp (st : StructTy) (fs : List (String × SV)) (k : String) (p : SProp)
   | some f =>
     match lookupS f.name fs with
     | none => .cerr
-    | some fv => readField f (reflTy p.ty) p.emptyIsDefault fv
+    | some fv => readField f (reflTy p.ty) p.disabled p.emptyIsDefault fv
 
 /-- the entry a property contributes to the map read from the struct value -/
 def readOpt (st : StructTy) (fs : List (String × SV)) (kp : String × SProp) : Option (String × SV) :=
@@ -450,13 +450,15 @@ theorem fromStruct_outcomes (st : StructTy) (fs : List (String × SV)) : ∀ (pr
             · split
               · simp
               · split
-                · unfold emptyLike
-                  split
-                  · simp [Out.bind]
-                  · split
-                    · simp [Out.bind]
-                    · split <;> simp [Out.bind]
                 · simp
+                · split
+                  · unfold emptyLike
+                    split
+                    · simp [Out.bind]
+                    · split
+                      · simp [Out.bind]
+                      · split <;> simp [Out.bind]
+                  · simp
     rcases hr with ⟨o, ho⟩ | ho | ho
     · rw [ho]
       rcases fromStruct_outcomes st fs rest with ⟨m, hm⟩ | hm | hm
@@ -570,9 +572,9 @@ theorem emptyLike_exact {src : GoTy} (x : SV) : emptyLike src src x = .ok (src !
 /-- what a property of reflected type `src` reads from a field that holds `v` (directly, or behind
     the pointer) under exact typing -/
 theorem readField_stored {f : Field} {src : GoTy} (hex : exactField f src = true) (hexp : f.exported = true)
-    (eid : Bool) {v : SV} (hv : shaped src v = true) :
-    readField f src eid (if f.ty = src then v else .ptr v) =
-      .ok (if eid && src != .iface && v.isZero then none else some v) := by
+    (dis eid : Bool) {v : SV} (hv : shaped src v = true) :
+    readField f src dis eid (if f.ty = src then v else .ptr v) =
+      .ok (if (dis || eid) && src != .iface && v.isZero then none else some v) := by
   simp only [shaped, Bool.and_eq_true, Bool.not_eq_true', Bool.or_eq_true] at hv
   obtain ⟨⟨hv1, hv2⟩, hv3⟩ := hv
   simp only [exactField, Bool.or_eq_true, beq_iff_eq, Bool.and_eq_true, Bool.not_eq_true', bne_iff_ne, ne_eq] at hex
@@ -581,13 +583,14 @@ theorem readField_stored {f : Field} {src : GoTy} (hex : exactField f src = true
     · rw [hex, elemTy_self]
     · rw [hex, elemTy_ptr hnp]
   have hx : ∀ (fv : SV), fieldValue src fv = v →
-      fv.isNilPtr = false → readField f src eid fv = .ok (if eid && src != .iface && v.isZero then none else some v) := by
+      fv.isNilPtr = false → readField f src dis eid fv =
+        .ok (if (dis || eid) && src != .iface && v.isZero then none else some v) := by
     intro fv hfv hnn
     unfold readField
-    simp only [hnn, Bool.false_eq_true, if_false, hexp, Bool.not_true, hfv, hv2, hel, emptyLike_exact]
-    cases eid
-    · simp
-    · simp only [if_true, Out.bind, Bool.true_and]
+    simp only [hnn, Bool.false_eq_true, if_false, hexp, Bool.not_true, hfv, hv2, hel, emptyLike_exact, reflIsZero]
+    generalize (src != GoTy.iface) = c1
+    generalize v.isZero = c2
+    cases dis <;> cases eid <;> cases c1 <;> cases c2 <;> simp [Out.bind]
   by_cases hft : f.ty = src
   · simp only [hft, if_true]
     apply hx v _ hv1
@@ -607,9 +610,9 @@ theorem readField_stored {f : Field} {src : GoTy} (hex : exactField f src = true
 
 /-- what a property reads from a field that holds the field's zero value -/
 theorem readField_zero {f : Field} {src : GoTy} (hex : exactField f src = true) (hexp : f.exported = true)
-    (hz : zeroOK f = true) (eid : Bool) :
-    readField f src eid f.zero =
-      .ok (if f.ty.isPtr || f.ty == .iface || eid then none else some f.zero) := by
+    (hz : zeroOK f = true) (dis eid : Bool) :
+    readField f src dis eid f.zero =
+      .ok (if f.ty.isPtr || f.ty == .iface || dis || eid then none else some f.zero) := by
   simp only [zeroOK] at hz
   by_cases hp : f.ty.isPtr = true
   · simp only [hp, if_true] at hz
@@ -639,21 +642,19 @@ theorem readField_zero {f : Field} {src : GoTy} (hex : exactField f src = true) 
         cases hzv : f.zero <;> simp [hzv, SV.isPtrVal, fieldValue] at hz3 ⊢
       unfold readField
       simp only [hz2, Bool.false_eq_true, if_false, hexp, Bool.not_true, hx, hz4, hft, elemTy_self, emptyLike_exact,
-        hsi, hz1]
-      cases eid
-      · simp
-      · simp [Out.bind]
+        hsi, hz1, reflIsZero]
+      cases dis <;> cases eid <;> simp [Out.bind]
 
 /-! ### map -> struct -> map -/
 
 /-- what a property reads back after `toStruct`, given what the converted map held for it:
-    a supplied value comes back unless it is the zero value of a treat-empty-as-default property;
-    an absent property comes back with the field's zero value unless the field is a pointer or an
-    interface or the property is treat-empty-as-default -/
+    a supplied value comes back unless it is the zero value of a treat-empty-as-default (or
+    disabled) property; an absent property comes back with the field's zero value unless the field
+    is a pointer or an interface or the property is treat-empty-as-default or disabled -/
 def readBack (f : Field) (p : SProp) (o : Option SV) : Option SV :=
   match o with
-  | some v => if p.emptyIsDefault && reflTy p.ty != .iface && v.isZero then none else some v
-  | none => if f.ty.isPtr || f.ty == .iface || p.emptyIsDefault then none else some f.zero
+  | some v => if (p.disabled || p.emptyIsDefault) && reflTy p.ty != .iface && v.isZero then none else some v
+  | none => if f.ty.isPtr || f.ty == .iface || p.disabled || p.emptyIsDefault then none else some f.zero
 
 /-- the map `fromStruct` reads from the struct built from `m` -/
 def expectedBack (st : StructTy) (props : List (String × SProp)) (m : List (String × SV)) : List (String × SV) :=
@@ -726,11 +727,11 @@ theorem readProp_applied {st : StructTy} {props : List (String × SProp)} (hwf :
   cases hl : lookupS k m with
   | none =>
     simp only [readBack]
-    exact readField_zero hexf hexp (hwf.zeros f (fieldFor_mem hf)) _
+    exact readField_zero hexf hexp (hwf.zeros f (fieldFor_mem hf)) _ _
   | some v =>
     simp only [readBack]
     have hsh := hm.shaped (k, v) (lookupS_mem hl) p (lookupS_of_mem_nodup hwf.keys hkp)
-    have := readField_stored hexf hexp p.emptyIsDefault hsh
+    have := readField_stored hexf hexp p.disabled p.emptyIsDefault hsh
     simp only [] at this
     rw [this]
 
@@ -761,10 +762,11 @@ def readBackC (f : Field) (p : SProp) (o : Option SV) : Option SV :=
   match o with
   | some v =>
     if (convBack f p v).isNilIface then none
+    else if p.disabled && reflIsZero (elemTy f.ty (reflTy p.ty)) (convBack f p v) then none
     else if p.emptyIsDefault && emptyB (elemTy f.ty (reflTy p.ty)) (reflTy p.ty) (convBack f p v) then none
     else some (convBack f p v)
   | none =>
-    if f.ty.isPtr || f.ty == .iface then none
+    if f.ty.isPtr || f.ty == .iface || p.disabled then none
     else if p.emptyIsDefault && emptyB f.ty (reflTy p.ty) f.zero then none
     else some f.zero
 
@@ -819,7 +821,7 @@ theorem setField_wf {f : Field} {p : SProp}
 theorem readField_storedC {f : Field} {p : SProp} (hexp : f.exported = true)
     (hconv : convOK (elemTy f.ty (reflTy p.ty)) (reflTy p.ty) = true) {v : SV}
     (hv : shaped (reflTy p.ty) v = true) :
-    readField f (reflTy p.ty) p.emptyIsDefault (storedC f p v) = .ok (readBackC f p (some v)) := by
+    readField f (reflTy p.ty) p.disabled p.emptyIsDefault (storedC f p v) = .ok (readBackC f p (some v)) := by
   simp only [shaped, Bool.and_eq_true, Bool.not_eq_true', Bool.or_eq_true] at hv
   obtain ⟨⟨hv1, _⟩, hv3⟩ := hv
   have hcp : (convBack f p v).isPtrVal = v.isPtrVal := by
@@ -849,13 +851,17 @@ theorem readField_storedC {f : Field} {p : SProp} (hexp : f.exported = true)
   by_cases hni : (convBack f p v).isNilIface = true
   · simp [hni]
   · simp only [hni, Bool.false_eq_true, if_false]
-    cases p.emptyIsDefault
+    generalize (p.disabled && reflIsZero (elemTy f.ty (reflTy p.ty)) (convBack f p v)) = c
+    cases c
+    · simp only [Bool.false_eq_true, if_false]
+      cases p.emptyIsDefault
+      · simp
+      · simp only [if_true, emptyLike_of_convOK hconv, Out.bind, Bool.true_and]
     · simp
-    · simp only [if_true, emptyLike_of_convOK hconv, Out.bind, Bool.true_and]
 
 theorem readField_zeroC {f : Field} {p : SProp} (hexp : f.exported = true)
     (hconv : convOK (elemTy f.ty (reflTy p.ty)) (reflTy p.ty) = true) (hz : zeroOK f = true) :
-    readField f (reflTy p.ty) p.emptyIsDefault f.zero = .ok (readBackC f p none) := by
+    readField f (reflTy p.ty) p.disabled p.emptyIsDefault f.zero = .ok (readBackC f p none) := by
   simp only [zeroOK] at hz
   by_cases hp : f.ty.isPtr = true
   · simp only [hp, if_true] at hz
@@ -872,16 +878,20 @@ theorem readField_zeroC {f : Field} {p : SProp} (hexp : f.exported = true)
       | _ => simp [hzv, SV.isNilIface] at hz
     · have hi' : (f.ty == GoTy.iface) = false := by simpa using hi
       simp only [hi', Bool.false_eq_true, if_false, Bool.and_eq_true, Bool.not_eq_true'] at hz
-      obtain ⟨⟨⟨_, hz2⟩, hz3⟩, hz4⟩ := hz
+      obtain ⟨⟨⟨hz1, hz2⟩, hz3⟩, hz4⟩ := hz
       have hel : elemTy f.ty (reflTy p.ty) = f.ty := by simp [elemTy, hp']
       rw [hel] at hconv
       have hx : fieldValue (reflTy p.ty) f.zero = f.zero := fieldValue_of_not_ptr (Or.inl hz3)
+      have hrz : reflIsZero f.ty f.zero = true := by simp [reflIsZero, hi, hz1]
       unfold readField
       simp only [hz2, Bool.false_eq_true, if_false, hexp, Bool.not_true, hx, hz4, hel, readBackC, hp', hi',
-        Bool.or_self]
-      cases p.emptyIsDefault
+        Bool.or_self, hrz, Bool.and_true, Bool.false_or]
+      cases p.disabled
+      · simp only [Bool.false_eq_true, if_false]
+        cases p.emptyIsDefault
+        · simp
+        · simp only [if_true, emptyLike_of_convOK hconv, Out.bind, Bool.true_and]
       · simp
-      · simp only [if_true, emptyLike_of_convOK hconv, Out.bind, Bool.true_and]
 
 theorem entrySet_wf {st : StructTy} {props : List (String × SProp)} (hwf : WFObj st props)
     {k : String} {p : SProp} (hkp : (k, p) ∈ props) {f : Field} (hf : fieldFor st k = some f) (v : SV) :
@@ -942,13 +952,13 @@ structure StructValue (st : StructTy) (props : List (String × SProp)) (fs : Lis
   /-- whatever reads as unset is the zero value (a non-nil pointer to the zero value of a
       treat-empty-as-default property, or a negative zero, would be lost) -/
   recoverable : ∀ kp, kp ∈ props → ∀ f fv, fieldFor st kp.1 = some f → lookupS f.name fs = some fv →
-    readField f (reflTy kp.2.ty) kp.2.emptyIsDefault fv = .ok none → fv = f.zero
+    readField f (reflTy kp.2.ty) kp.2.disabled kp.2.emptyIsDefault fv = .ok none → fv = f.zero
   /-- fields that no property is mapped to hold their zero value -/
   unmapped : ∀ f, f ∈ st.fields → (∀ kp, kp ∈ props → fieldName? st kp.1 ≠ some f.name) →
     lookupS f.name fs = some f.zero
 
-theorem readField_some {f : Field} {src : GoTy} {eid : Bool} {fv x : SV}
-    (h : readField f src eid fv = .ok (some x)) : x = fieldValue src fv ∧ fv.isNilPtr = false := by
+theorem readField_some {f : Field} {src : GoTy} {dis eid : Bool} {fv x : SV}
+    (h : readField f src dis eid fv = .ok (some x)) : x = fieldValue src fv ∧ fv.isNilPtr = false := by
   unfold readField at h
   split at h
   · cases h
@@ -958,11 +968,13 @@ theorem readField_some {f : Field} {src : GoTy} {eid : Bool} {fv x : SV}
     · split at h
       · cases h
       · split at h
-        · obtain ⟨e, _, he⟩ := Out.bind_eq_ok h
-          cases e <;> simp at he
-          exact ⟨he.symm, by simpa using hn⟩
-        · simp only [Out.ok.injEq, Option.some.injEq] at h
-          exact ⟨h.symm, by simpa using hn⟩
+        · cases h
+        · split at h
+          · obtain ⟨e, _, he⟩ := Out.bind_eq_ok h
+            cases e <;> simp at he
+            exact ⟨he.symm, by simpa using hn⟩
+          · simp only [Out.ok.injEq, Option.some.injEq] at h
+            exact ⟨h.symm, by simpa using hn⟩
 
 theorem stored_eq_of_shaped {f : Field} {src : GoTy} (hex : exactField f src = true) {fv : SV}
     (hs : fieldShaped f src fv = true) (hn : fv.isNilPtr = false) :
